@@ -358,6 +358,7 @@ def gen_loop(rng: random.Random, *, max_n: int = 6) -> dict:
     """Gate-driven loop families (state gate / signal gate / exit node / accumulator)."""
     names = Names()
     family = rng.choice(["state", "state", "signal", "exit", "accum"])
+    separate_emitter = False
     k = rng.randint(1, 3)               # body length
     n = rng.randint(0, max_n)           # iterations dictated by the gate: loop while x < n
     x0 = rng.randint(0, 2)
@@ -379,7 +380,12 @@ def gen_loop(rng: random.Random, *, max_n: int = 6) -> dict:
         nodes.append(_fn_node("done", [[x, None]], ["result"], {"b": "tag", "t": "done"}))
         exit_target = "done"
     if family == "signal":
-        nodes[-1]["emits"] = ["turn_done"]
+        if rng.random() < 0.5:
+            nodes[-1]["emits"] = ["turn_done"]
+        else:
+            # the end-of-iteration signal comes from a separate downstream node, not from the loop-variable writer
+            nodes.append(_fn_node("audit", [[x, None]], [], {"b": "tag", "t": "audit"}, emits=["turn_done"]))
+            separate_emitter = True
     if family == "accum":
         # ungated accumulator fed by the loop variable: runs once per new x
         nodes.append(_fn_node("acc", [["messages", None], [x, None]], ["messages"], {"b": "append"}))
@@ -389,7 +395,7 @@ def gen_loop(rng: random.Random, *, max_n: int = 6) -> dict:
                 "body": {"b": "lt", "k": n}, "defaultOpen": default_open, "waitFor": gate_wait}
     else:
         rows = [[v, first] for v in range(0, n)]
-        gate = {"name": "gate", "kind": "route", "params": [[x, None]], "targets": [first, "__END__"],
+        gate = {"name": "gate", "kind": "route", "params": [[x, None]], "targets": [first, "__END__"] if rng.random() < 0.5 else ["__END__", first],
                 "body": {"b": "table", "rows": rows, "dflt": "__END__"}, "defaultOpen": default_open, "waitFor": gate_wait}
     nodes.append(gate)
     if rng.random() < 0.5:
@@ -400,7 +406,7 @@ def gen_loop(rng: random.Random, *, max_n: int = 6) -> dict:
     iters = max(0, n - x0)
     # supersteps needed: (k+1) per iteration + final gate evaluation (+ exit node)
     return {"program": [{"name": "g0", "nodes": nodes, "bound": []}], "values": values,
-            "loop": {"family": family, "k": k, "n": n, "x0": x0, "iters": iters, "defaultOpen": default_open}}
+            "loop": {"family": family, "k": k, "n": n, "x0": x0, "iters": iters, "defaultOpen": default_open, "separateEmitter": separate_emitter}}
 
 
 # ---------------------------------------------------------------- configuration variants
